@@ -76,6 +76,14 @@ func runC10(c *Ctx) {
 	c.r106()
 	c.r108()
 	c.r109()
+	// a look-ahead past the end of the input must not index past the token buffer (clause (e) of the token buffer rules)
+	c.alsoUnder(map[string]string{"R03.5": "R10.10", "R05.12": "R10.10", "R06.8": "R10.10"}, func(construct string) bool {
+		return strings.Contains(construct, "index clamped") || strings.Contains(construct, "early ends of the read loop")
+	}, func() {
+		c.tokenBuffer("R03.5", "html")
+		c.tokenBuffer("R05.12", "svg")
+		c.tokenBuffer("R06.8", "xml")
+	})
 }
 
 // lenLowerBound derives, from an outcome of a condition, a lower bound of len(<expr>) (by expression text).
